@@ -34,7 +34,7 @@ def meta_st():
         st.sampled_from(SIMPLE_META),
         st.text(max_size=40),
         st.text(st.characters(codec="utf-8", exclude_categories=["Cs"]), max_size=30).map(lambda s: s + "\r\nX"),
-        st.sampled_from(["a\nb", "a\rb", "20 text/gemini\r\n", "x" * 1024, "x" * 1025, "é" * 512, "é" * 513, "y" * 2500]),
+        st.sampled_from(["a\nb", "a\rb", "20 text/gemini\r\n", "x" * 1024, "x" * 1025, "é" * 512, "é" * 513, "y" * 2500, "x" + "é" * 600, "xy" + "日" * 400]),
     )
 
 
@@ -71,7 +71,7 @@ def raise_spec(draw, kinds=("raise", "async-raise")):
     spec = {
         "kind": kind,
         "exc": draw(st.sampled_from(excs)),
-        "msg": draw(st.one_of(st.sampled_from(["boom", "a\r\nb", "line1\nline2", "m" * 3000, "é" * 600]), st.text(max_size=30))),
+        "msg": draw(st.one_of(st.sampled_from(["boom", "a\r\nb", "line1\nline2", "m" * 3000, "é" * 600, "x" + "é" * 600, "trailing newline\n"]), st.text(max_size=30))),
     }
     if kind.startswith("async"):
         spec["gate"] = draw(st.booleans())
